@@ -28,8 +28,15 @@ META = {
 }
 
 
+def _scale(c):
+    """the change of length unit: any positive factor; natively sampled over twelve orders of magnitude (nm ... km per micron)"""
+    if c.symbolic or "scale" in c.values:
+        return c.real("scale", pos=True, sample=(0.2, 5))
+    return c.real("scale_mantissa", pos=True, sample=(1, 9.999)) * 10.0 ** c.int("scale_exponent", -9, 3)
+
+
 def _setup(c):
-    s = c.real("scale", pos=True, sample=(0.2, 5))
+    s = _scale(c)
     lam = c.real("wavelen", pos=True, sample=(0.4, 0.8))
     n_med = c.real("medium_index", pos=True, sample=(1.0, 1.6))
     n = c.real("n", pos=True, sample=(1.2, 2.0))
@@ -217,13 +224,14 @@ def mielens_kernel_arguments(c):
           bounded="grid shapes (2,3) and 3")
 def detector_grid_scales(c):
     """detector_grid(shape, s*spacing) has exactly s times the coordinates of detector_grid(shape, spacing)"""
-    s = c.real("scale", pos=True, sample=(0.2, 5))
+    s = _scale(c)
     sx, sy = c.real("sx", pos=True, sample=(0.05, 1)), c.real("sy", pos=True, sample=(0.05, 1))
     shape = c.choice("shape", [(2, 3), 3])
     a = c.call(detector_grid, shape, (sx, sy))
     b = c.call(detector_grid, shape, (sx * s, sy * s))
-    c.ensures("x", c.eq(b.x.values, a.x.values * s))
-    c.ensures("y", c.eq(b.y.values, a.y.values * s))
+    # compared in the unscaled unit, so that the native tolerance is relative to the coordinates' own size
+    c.ensures("x", c.eq(b.x.values / s, a.x.values))
+    c.ensures("y", c.eq(b.y.values / s, a.y.values))
 
 
 @contract("C04", "integer_pixel_grid", [IF + "ImageFormation._transform_to_desired_coordinates", SI + "calc_holo"],
